@@ -20,7 +20,7 @@ def run(ctx):
     ic.design(ctx, [("MC_IndexStamp.cfg" if not ctx.quick else "MC_IndexQuick.cfg", "stamped start, 3 days, StripMd / EditKind"),
                     ])
     q = ctx.quick
-    sims = [("Sim_IndexScript11.cfg", 48 if q else 600, 11), ("Sim_IndexStamp.cfg", 20 if q else 1000, 12),
+    sims = [("Sim_IndexScript11b.cfg", 8 if q else 40, 8), ("Sim_IndexScript11.cfg", 48 if q else 600, 11), ("Sim_IndexStamp.cfg", 20 if q else 1000, 12),
             ("Sim_IndexStampM.cfg", 20 if q else 1000, 12), ("Sim_IndexEdit.cfg", 16 if q else 800, 12)]
     res = ic.tour(ctx, sims, {"idempotence": True, "rebuild": False}, cats, "C11")
     ic.random_histories(ctx, "C11", {"reindex"})
